@@ -8,7 +8,8 @@ package main
 //
 //	c  a client connects (and, if the acceptor is waiting in Accept, its Accept dequeues it)
 //	r  the held connection is released: Serve registers it (or finds Shutdown signalled)
-//	0 1  session 0 / 1 ends (the peer goes away)
+//	0 1  the peer of session 0 / 1 goes away: the session runs up to its conn.Close()
+//	a b  the Close of session 0 / 1 is let through (then the session finishes)
 //	S  Shutdown is called and runs until it is closing the listener
 //	k  the listener close is let through: Shutdown goes on to wait
 //	x  the context ends
@@ -88,7 +89,7 @@ func connState(c *memConn) string {
 	c.mu.Lock()
 	defer c.mu.Unlock()
 	switch {
-	case c.localClosed && c.addrCalls == 0:
+	case (c.localClosed || c.closing) && c.addrCalls == 0:
 		return "late"
 	case c.localClosed:
 		return "ended"
@@ -133,6 +134,7 @@ func runShutdownSeq(seq string) (obs string, problems []string) {
 		switch tok {
 		case 'c':
 			mc := newMemConn(fmt.Sprintf("c%d", len(r.conns)))
+			mc.closeGate = newGate("conn-close")
 			r.conns = append(r.conns, mc)
 			before := r.heldCount()
 			r.lis.ch <- acceptResult{conn: mc}
@@ -153,6 +155,11 @@ func runShutdownSeq(seq string) (obs string, problems []string) {
 			i := int(tok - '0')
 			if i < len(r.conns) {
 				r.conns[i].peerClose()
+			}
+		case 'a', 'b':
+			i := int(tok - 'a')
+			if i < len(r.conns) {
+				r.conns[i].closeGate.release()
 			}
 		case 'S':
 			r.shStarted = true
@@ -200,6 +207,7 @@ func runShutdownSeq(seq string) (obs string, problems []string) {
 	r.lis.mu.Unlock()
 	for _, c := range r.conns {
 		c.peerClose()
+		c.closeGate.release()
 	}
 	r.cancel()
 	if !r.shStarted {
@@ -231,6 +239,7 @@ func genShutdownSeqs(maxLen int) []string {
 		conns, dequeued, released int
 		running                   [2]bool
 		ended                     [2]bool
+		closed                    [2]bool
 		sh, k, x                  bool
 		acceptorBusy              bool // holds a connection at the gate
 		serveReturned             bool
@@ -274,6 +283,11 @@ func genShutdownSeqs(maxLen int) []string {
 				n.ended[i] = true
 				rec(prefix+string(rune('0'+i)), n)
 			}
+			if s.ended[i] && !s.closed[i] {
+				n := s
+				n.closed[i] = true
+				rec(prefix+string(rune('a'+i)), n)
+			}
 		}
 		if !s.sh {
 			n := s
@@ -303,7 +317,7 @@ func suiteShutdown(args []string) {
 	fs.Parse(args)
 	cw := newCaseWriter(*dir)
 	rep := &Report{Suite: "shutdown", Seed: *seed, Distribution: map[string]int{}}
-	rep.Rule = "every well-formed schedule over {c connect, r release accepted connection, 0/1 session ends, S Shutdown up to the listener close, k let the close through, x context ends} up to the length bound, 1-2 connections; all distinct; non-trivial = contains S and at least one connection"
+	rep.Rule = "every well-formed schedule over {c connect, r release accepted connection, 0/1 peer of a session goes away, a/b the session's conn.Close is let through, S Shutdown up to the listener close, k let the close through, x context ends} up to the length bound, 1-2 connections; all distinct; non-trivial = contains S and at least one connection"
 	seqs := genShutdownSeqs(*maxLen)
 	type res struct {
 		obs      string
